@@ -504,6 +504,36 @@ def neg_skolem(goal):
     return z3.Not(goal)
 
 
+PATH_PAIRS = []   # (edge relation term, Path function) pairs registered by the library theory (vf/pyvc/lib.py: PathTheory.path)
+
+
+def nonstandard_paths(mdl):
+    """names of the Path functions that, in this counter-model, hold for a pair of names the edge relation does not connect.  Path_E is
+    axiomatised as *a* reflexive relation closed under E-steps (leastness only through listed induction instances), so z3 may answer
+    with a model in which Path is larger than the reflexive-transitive closure: such a counter-model says nothing about the code."""
+    try:
+        U = mdl.get_universe(Atom)
+        if not U or len(U) > 14:
+            return []
+        bad = []
+        for E, P in PATH_PAIRS:
+            if mdl.get_interp(P) is None:
+                continue
+            n = len(U)
+            reach = [[i == j or z3.is_true(mdl.eval(E[U[i], U[j]], model_completion=True)) for j in range(n)] for i in range(n)]
+            for k in range(n):
+                for i in range(n):
+                    if reach[i][k]:
+                        for j in range(n):
+                            if reach[k][j]:
+                                reach[i][j] = True
+            if any(z3.is_true(mdl.eval(P(U[i], U[j]), model_completion=True)) and not reach[i][j] for i in range(n) for j in range(n)):
+                bad.append(P.name())
+        return bad
+    except Exception:
+        return []
+
+
 def solve(hyps, goal, timeout_ms=None, want_model=True):
     """Is hyps |= goal ?  returns (verdict, model_text, secs, backend).
     order: z3 default (proof or counter-model) -> counter-model search over 2..3 names -> z3 with e-matching only
@@ -562,6 +592,14 @@ def solve(hyps, goal, timeout_ms=None, want_model=True):
                 m = str(s.model())[:6000]
             except Exception:
                 m = "<model unavailable>"
+        try:
+            ns = nonstandard_paths(s.model())
+        except Exception:
+            ns = []
+        if ns:
+            # not a counter-example of the code: a candidate only (needs a failing input from a bounded group, like refuted-bounded)
+            return ("refuted-bounded", f"(non-standard model: {', '.join(ns)} exceeds the reflexive-transitive closure of its edge relation)\n{m}",
+                    time.time() - t0, ver + "(nonstandard-path-model)")
         return "refuted", m, time.time() - t0, ver
     reason = s.reason_unknown()
     if want_model:
